@@ -8,6 +8,7 @@ func init() {
 	vfHarnesses["C18_ignore_order_multipoint"] = vfhC18IgnoreOrderMultiPoint
 	vfHarnesses["C18_ring_rotation"] = vfhC18RingRotation
 	vfHarnesses["C18_empties"] = vfhC18Empties
+	vfHarnesses["C18_tolerance_matching"] = vfhC18ToleranceMatching
 	vfHarnesses["C18_point_hunt"] = vfhC18PointHunt
 	vfHarnesses["C18_ring_vertex"] = vfhC18RingVertex
 }
@@ -166,5 +167,42 @@ func vfhC18Empties() {
 	vfAssert(ExactEquals(GeometryCollection{}.ForceCoordinatesType(cta).AsGeometry(), GeometryCollection{}.ForceCoordinatesType(ctb).AsGeometry()) == same, "empty collections")
 	vfAssert(!ExactEquals(NewEmptyPoint(cta).AsGeometry(), MultiPoint{}.ForceCoordinatesType(cta).AsGeometry()), "different types")
 	vfAssert(ExactEquals(Geometry{}, GeometryCollection{}.AsGeometry()), "the zero Geometry is the empty collection")
+	vfReach("end")
+}
+
+// IgnoreOrder + ToleranceXY on MultiPoints of 3 points on a horizontal line:
+// equal iff some permutation pairs the members within the tolerance (checked
+// against all 6 permutations); symmetric.
+func vfhC18ToleranceMatching() {
+	var ax, bx [3]float64
+	for i := range ax {
+		ax[i] = vfLattice("a", 6)
+		bx[i] = vfLattice("b", 6)
+	}
+	tol := vfLattice("tol", 4)
+	vfAssume(tol > 0)
+	mk := func(xs [3]float64) Geometry {
+		return NewMultiPoint([]Point{vfPointXY(XY{xs[0], 0}), vfPointXY(XY{xs[1], 0}), vfPointXY(XY{xs[2], 0})}).AsGeometry()
+	}
+	near := func(i, j int) bool {
+		d := ax[i] - bx[j]
+		return d*d <= tol*tol
+	}
+	perms := [][3]int{{0, 1, 2}, {0, 2, 1}, {1, 0, 2}, {1, 2, 0}, {2, 0, 1}, {2, 1, 0}}
+	want := false
+	for _, p := range perms {
+		want = vfOr(want, vfAnd(near(0, p[0]), vfAnd(near(1, p[1]), near(2, p[2]))))
+	}
+	a, b := mk(ax), mk(bx)
+	got := ExactEquals(a, b, IgnoreOrder, ToleranceXY(tol))
+	vfAssert(got == want, "equal iff some permutation matches the members within the tolerance")
+	vfAssert(ExactEquals(b, a, IgnoreOrder, ToleranceXY(tol)) == got, "symmetric")
+	inOrder := vfAnd(near(0, 0), vfAnd(near(1, 1), near(2, 2)))
+	vfAssert(ExactEquals(a, b, ToleranceXY(tol)) == inOrder, "without IgnoreOrder the members correspond in order")
+	if got {
+		vfReach("equal")
+	} else {
+		vfReach("different")
+	}
 	vfReach("end")
 }
